@@ -40,6 +40,7 @@ func (v vclock) join(o vclock) {
 type lockHeld struct {
 	m      *value
 	shared bool // held through RLock
+	acq    int  // identity of the acquisition (threads started inside a critical section inherit it)
 }
 
 type accessEv struct {
@@ -50,6 +51,7 @@ type accessEv struct {
 	clock int // the thread's own clock component at the access
 	task  int // index into e.tasks (-1: setup / no task)
 	vc    vclock
+	nvc   vclock // the same clock without the mutex release->acquire edges (see hb)
 	locks []lockHeld // mutexes held (in order of acquisition)
 	site  string
 }
@@ -70,6 +72,7 @@ type raceState struct {
 	nextTid int
 	tidOf   map[*gthread]int
 	vcs     map[int]vclock
+	nvcs    map[int]vclock // clocks that ignore mutex release->acquire edges; own components equal those of vcs
 	locks   map[int][]lockHeld
 	cells   map[*value]*cellInfo
 	cand    map[string][2]*accessEv
@@ -78,13 +81,15 @@ type raceState struct {
 	events  []accessEv
 	seen    map[string]bool
 	tasks   []taskInfo
+	nextAcq int
 	curTask int
 	taskTid int // when a task is open, the main goroutine acts as this logical thread
 }
 
 func (e *Engine) raceReset() {
-	e.race = &raceState{on: e.sh.traceAccess, tidOf: map[*gthread]int{}, vcs: map[int]vclock{}, locks: map[int][]lockHeld{}, cells: map[*value]*cellInfo{}, cand: map[string][2]*accessEv{}, mutexVC: map[*value]vclock{}, mutexRVC: map[*value]vclock{}, seen: map[string]bool{}, curTask: -1, taskTid: -1, nextTid: 1}
+	e.race = &raceState{on: e.sh.traceAccess, tidOf: map[*gthread]int{}, vcs: map[int]vclock{}, nvcs: map[int]vclock{}, locks: map[int][]lockHeld{}, cells: map[*value]*cellInfo{}, cand: map[string][2]*accessEv{}, mutexVC: map[*value]vclock{}, mutexRVC: map[*value]vclock{}, seen: map[string]bool{}, curTask: -1, taskTid: -1, nextTid: 1}
 	e.race.vcs[0] = vclock{0: 1}
+	e.race.nvcs[0] = vclock{0: 1}
 }
 
 // curTid is the logical thread of the running code.
@@ -115,6 +120,13 @@ func (e *Engine) raceSpawn(child *gthread) {
 	vc[t] = 1
 	r.vcs[t] = vc
 	r.vcs[p][p]++
+	nvc := r.nvcs[p].copy()
+	nvc[t] = 1
+	r.nvcs[t] = nvc
+	r.nvcs[p][p]++
+	// a thread started inside a critical section works on behalf of the holder (the worker pools are started
+	// and drained by a handler that holds the request mutex): its accesses count as made under those mutexes
+	r.locks[t] = append([]lockHeld{}, r.locks[p]...)
 }
 
 // raceSync transfers happens-before from one logical thread to another (channel communication).
@@ -129,6 +141,9 @@ func (e *Engine) raceSync(from, to int) {
 	r.vcs[to].join(r.vcs[from])
 	r.vcs[from][from]++
 	r.vcs[to][to]++
+	r.nvcs[to].join(r.nvcs[from])
+	r.nvcs[from][from]++
+	r.nvcs[to][to]++
 }
 
 func (e *Engine) raceLock(m *value) { e.raceLockMode(m, false) }
@@ -147,7 +162,8 @@ func (e *Engine) raceLockMode(m *value, shared bool) {
 			r.vcs[t].join(vc)
 		}
 	}
-	r.locks[t] = append(append([]lockHeld{}, r.locks[t]...), lockHeld{m, shared})
+	r.locks[t] = append(append([]lockHeld{}, r.locks[t]...), lockHeld{m, shared, r.nextAcq})
+	r.nextAcq++
 }
 
 func (e *Engine) raceUnlock(m *value) {
@@ -174,6 +190,7 @@ func (e *Engine) raceUnlock(m *value) {
 		r.mutexVC[m] = r.vcs[t].copy()
 	}
 	r.vcs[t][t]++
+	r.nvcs[t][t]++
 }
 
 func (e *Engine) raceAccess(m *mapv, write bool) {
@@ -194,10 +211,18 @@ func (e *Engine) raceAccess(m *mapv, write bool) {
 		return
 	}
 	r.seen[key] = true
-	r.events = append(r.events, accessEv{obj: m, write: write, tid: t, clock: r.vcs[t][t], task: r.curTask, vc: r.vcs[t].copy(), locks: r.locks[t], site: site})
+	r.events = append(r.events, accessEv{obj: m, write: write, tid: t, clock: r.vcs[t][t], task: r.curTask, vc: r.vcs[t].copy(), nvc: r.nvcs[t].copy(), locks: r.locks[t], site: site})
 }
 
-func hb(a, b *accessEv) bool { return a.vc[a.tid] <= b.vc[a.tid] }
+// hb: a happens before b. Between two different message tasks the mutex release->acquire edges of the
+// observed (sequential) execution are ignored: another schedule may take the critical sections in the
+// other order, and raceFeasible states mutual exclusion explicitly for the mutexes held at the accesses.
+func hb(a, b *accessEv) bool {
+	if a.task >= 0 && b.task >= 0 && a.task != b.task {
+		return a.nvc[a.tid] <= b.nvc[a.tid]
+	}
+	return a.vc[a.tid] <= b.vc[a.tid]
+}
 
 func (e *Engine) moduleSite() string {
 	for fr := e.curFrame; fr != nil; fr = fr.caller {
@@ -233,8 +258,15 @@ func (e *Engine) raceCell(p *value, write bool) {
 		return ev
 	}
 	check := func(old *accessEv) {
-		if old == nil || old.tid == t || old.clock <= vc[old.tid] {
-			return // same thread or ordered before the current access
+		if old == nil || old.tid == t {
+			return
+		}
+		ordered := old.clock <= vc[old.tid]
+		if old.task >= 0 && r.curTask >= 0 && old.task != r.curTask {
+			ordered = old.clock <= r.nvcs[t][old.tid] // across message tasks: without the mutex edges (see hb)
+		}
+		if ordered {
+			return // ordered before the current access
 		}
 		cur := mkEv()
 		w, o := old, cur
@@ -287,6 +319,12 @@ func (e *Engine) raceCheck() {
 		fmt.Printf("race debug: %d cell candidates, %d map events, tids=%d\n", len(r.cand), len(r.events), r.nextTid)
 		for k := range r.cand {
 			fmt.Println("   cand", k)
+		}
+		if os.Getenv("GOSX_RACE_DEBUG") == "2" {
+			for i := range r.events {
+				ev := &r.events[i]
+				fmt.Printf("   ev obj=%p write=%v tid=%d task=%d locks=%d site=%s vc=%v nvc=%v\n", ev.obj, ev.write, ev.tid, ev.task, len(ev.locks), shortFn(ev.site), ev.vc, ev.nvc)
+			}
 		}
 	}
 	// heap-cell candidates
@@ -366,23 +404,24 @@ func (e *Engine) raceFeasible(a, b *accessEv) bool {
 	type sect struct {
 		m        *value
 		shared   bool
+		id       int
 		acq, rel *Term
 	}
 	var sa, sb []sect
 	for _, lh := range a.locks {
-		s := sect{lh.m, lh.shared, mk("acqA"), mk("relA")}
+		s := sect{lh.m, lh.shared, lh.acq, mk("acqA"), mk("relA")}
 		e.sol.Assert(tAnd(lt(s.acq, ta), lt(ta, s.rel)))
 		sa = append(sa, s)
 	}
 	for _, lh := range b.locks {
-		s := sect{lh.m, lh.shared, mk("acqB"), mk("relB")}
+		s := sect{lh.m, lh.shared, lh.acq, mk("acqB"), mk("relB")}
 		e.sol.Assert(tAnd(lt(s.acq, tb), lt(tb, s.rel)))
 		sb = append(sb, s)
 	}
 	// mutual exclusion per mutex (two read-locked sections of an RWMutex may overlap)
 	for _, x := range sa {
 		for _, y := range sb {
-			if x.m == y.m && !(x.shared && y.shared) {
+			if x.m == y.m && x.id != y.id && !(x.shared && y.shared) { // the same acquisition: both accesses sit in one critical section
 				e.sol.Assert(tOr(lt(x.rel, y.acq), lt(y.rel, x.acq)))
 			}
 		}
@@ -429,6 +468,7 @@ func init() {
 			// all tasks are over: whatever follows happens after them
 			for _, t := range r.tasks {
 				r.vcs[0].join(r.vcs[t.tid])
+				r.nvcs[0].join(r.nvcs[t.tid])
 			}
 			r.curTask, r.taskTid = -1, -1
 			return nil
@@ -438,6 +478,9 @@ func init() {
 		vc := r.vcs[0].copy() // a task starts after the set-up code, and is unordered with the other tasks
 		vc[t] = 1
 		r.vcs[t] = vc
+		nvc := r.nvcs[0].copy()
+		nvc[t] = 1
+		r.nvcs[t] = nvc
 		r.tasks = append(r.tasks, taskInfo{name: name, notif: notif, tid: t})
 		r.curTask, r.taskTid = len(r.tasks)-1, t
 		return nil
